@@ -748,6 +748,7 @@ func (t *Term) write(sb *strings.Builder, named map[int]string) {
 		}
 		t.args[0].write(sb, named)
 		if len(t.pats) > 0 {
+			fmt.Fprintf(sb, " :qid %s_%d", strings.ReplaceAll(t.binds[0].name, "!", "_"), t.id)
 			for _, p := range t.pats {
 				sb.WriteString(" :pattern (")
 				for i, x := range p {
